@@ -86,7 +86,7 @@ def main(chk):
             jobs.append((r_family, (mir, name, n, t, 'ignored', chk.seed, to), {}))
             if n <= 2: jobs.append((r_family, (mir, name, n, t, 'dataitem', chk.seed, to), {}))
     chk.add(run_jobs(jobs))
-    hs = [k_ignored(nm, 2, 3) for nm in (('SMA', 'EMA', 'WMA', 'MIN', 'MAX', 'ROC') if q else tuple(FIELD))]
+    hs = [k_ignored(nm, 2, 4 if nm in ('EMA', 'RSI', 'MACD', 'PPO', 'SD', 'BB', 'ER', 'MAD') else 6) for nm in (('SMA', 'EMA', 'WMA', 'MIN', 'MAX', 'ROC') if q else tuple(FIELD))]
     chk.add(kani.run_family_set('C10', hs, jobs=8, timeout_s=240 if q else 1800))
     chk.assumptions += ['price getters are pure (a bar is five plain numbers); engine R exact reals', 'bar fields vary independently (not only consistent OHLC)']
     chk.notes += [ 'periods above the bound']
@@ -103,11 +103,11 @@ def k_ignored(name, n, t):
     fi = FIELD[name]
     b = KB('c10_ignored_%s_n%d' % (name.lower(), n), unwind=n + 3,
            family='K:C10 %s n=%d: bar path (ignored fields any f64 incl. NaN/inf) == scalar path on %s, %d steps' % (name, n, 'ohlcv'[fi], t),
-           bounds=dict(engine='K', indicator=name, n=n, t=t, read_field='every finite f64' if name in ('MIN', 'MAX') else 'symbolic over {1.5, 0.1, 1000.25}', ignored_fields='every f64 bit pattern'))
+           bounds=dict(engine='K', indicator=name, n=n, t=t, read_field='every finite f64' if name in ('MIN', 'MAX') else 'symbolic over {1.5, 0.1, 1000.25, 0.0, 1e17}', ignored_fields='every f64 bit pattern'))
     k = KOps(b)
     k.new('a', name, specs(name, n)); k.new('s', name, specs(name, n))
     exact = name in ('MIN', 'MAX')
-    TABX = [1.5, 0.1, 1000.25]
+    TABX = [1.5, 0.1, 1000.25, 0.0, 1e17]
     for i in range(t):
         if exact:
             x = b.anyf('x%d' % i, finite=True); d = ('sym', 'x%d' % i)
